@@ -158,6 +158,9 @@ func hashDataFacts(c *Ctx, dir string, fset *token.FileSet) {
 						for _, r := range x.Results {
 							lines = append(lines, fmt.Sprintf("hashdata return %s %s", name, render(r)))
 						}
+					case *ast.RangeStmt:
+						// what the loop over the sub-txs ranges over (a slice expression here would drop sub-txs from the hash)
+						lines = append(lines, fmt.Sprintf("hashdata range %s %s", name, render(x.X)))
 					case *ast.IfStmt:
 						lines = append(lines, fmt.Sprintf("hashdata cond %s %s", name, render(x.Cond)))
 					case *ast.CallExpr:
@@ -210,6 +213,22 @@ func printExprArgs(sb *strings.Builder, e ast.Expr) {
 		printExprArgs(sb, x.Y)
 	case *ast.BasicLit:
 		sb.WriteString(x.Value)
+	case *ast.SliceExpr:
+		printExprArgs(sb, x.X)
+		sb.WriteString("[")
+		if x.Low != nil {
+			printExprArgs(sb, x.Low)
+		}
+		sb.WriteString(":")
+		if x.High != nil {
+			printExprArgs(sb, x.High)
+		}
+		sb.WriteString("]")
+	case *ast.IndexExpr:
+		printExprArgs(sb, x.X)
+		sb.WriteString("[")
+		printExprArgs(sb, x.Index)
+		sb.WriteString("]")
 	case *ast.ParenExpr:
 		sb.WriteString("(")
 		printExprArgs(sb, x.X)
